@@ -218,6 +218,63 @@ func CodecUnmarshal(b []byte, m proto.Message) error {
 	return ErrCodec
 }
 
+// CodecUnmarshalMerge is Unmarshal with UnmarshalOptions.Merge: the message is not reset; proto3 leaves zero valued
+// fields off the wire, so only the non-zero fields of the encoded message overwrite what the target holds.
+func CodecUnmarshalMerge(b []byte, m proto.Message) error {
+	switch x := m.(type) {
+	case *sst.IndexEntry:
+		var t sst.IndexEntry
+		if err := CodecUnmarshal(b, &t); err != nil {
+			return err
+		}
+		if len(t.Key) > 0 {
+			x.Key = t.Key
+		}
+		if t.ValueOffset != 0 {
+			x.ValueOffset = t.ValueOffset
+		}
+		if t.Checksum != 0 {
+			x.Checksum = t.Checksum
+		}
+		return nil
+	case *sst.MetaData:
+		var t sst.MetaData
+		if err := CodecUnmarshal(b, &t); err != nil {
+			return err
+		}
+		if t.NumRecords != 0 {
+			x.NumRecords = t.NumRecords
+		}
+		if len(t.MinKey) > 0 {
+			x.MinKey = t.MinKey
+		}
+		if len(t.MaxKey) > 0 {
+			x.MaxKey = t.MaxKey
+		}
+		if t.DataBytes != 0 {
+			x.DataBytes = t.DataBytes
+		}
+		if t.IndexBytes != 0 {
+			x.IndexBytes = t.IndexBytes
+		}
+		if t.TotalBytes != 0 {
+			x.TotalBytes = t.TotalBytes
+		}
+		if t.Version != 0 {
+			x.Version = t.Version
+		}
+		if t.SkippedRecords != 0 {
+			x.SkippedRecords = t.SkippedRecords
+		}
+		if t.NullValues != 0 {
+			x.NullValues = t.NullValues
+		}
+		return nil
+	}
+	// the other messages are never decoded into a reused target by the code under test
+	return CodecUnmarshal(b, m)
+}
+
 // InstallCodec redirects proto.Marshal / proto.Unmarshal (symbolic engine only).
 func InstallCodec() {
 	if !Symbolic() {
@@ -226,5 +283,10 @@ func InstallCodec() {
 	Redirect("google.golang.org/protobuf/proto.Marshal", CodecMarshal)
 	Redirect("google.golang.org/protobuf/proto.Unmarshal", CodecUnmarshal)
 	Redirect("(google.golang.org/protobuf/proto.UnmarshalOptions).Unmarshal",
-		func(o proto.UnmarshalOptions, b []byte, m proto.Message) error { return CodecUnmarshal(b, m) })
+		func(o proto.UnmarshalOptions, b []byte, m proto.Message) error {
+			if o.Merge {
+				return CodecUnmarshalMerge(b, m)
+			}
+			return CodecUnmarshal(b, m)
+		})
 }
